@@ -35,7 +35,7 @@ def check(tier, seed, replay=None):
     run.cov["trusted_base"] = wire.WIRE_TRUSTED
     broken = None
     try:
-        wire.maybe_proof(run, "props/C01.v", ["C01_partial"])
+        wire.maybe_proof(run, "props/C01.v", ["C01"])
     except BrokenTie as e:
         broken = e
     found = False
